@@ -69,3 +69,102 @@ Proof.
 Qed.
 Lemma cross_map_pairs n a b : (In [a; b] (pairs_unique n) <-> (a < b < n)%nat) /\ (In [a; b] (pairs_any n) <-> (a <= b < n)%nat).
 Proof. split; [apply pairs_unique_spec | apply pairs_any_spec]. Qed.
+
+(** * usefulness criterion: the progeny mean is the contribution-weighted mean of the parents' breeding values *)
+Lemma uc_mean_nil_l bv parents q : uc_mean bv [] parents q == 0. Proof. reflexivity. Qed.
+Lemma uc_mean_cons bv e epgc i parents q : uc_mean bv (e :: epgc) (i :: parents) q == e * mget bv i q + uc_mean bv epgc parents q.
+Proof. unfold uc_mean. cbn [map2]. apply qsum_cons. Qed.
+
+(** translation: adding c to every parent's breeding value adds c * (sum of the contributions) ... *)
+Lemma uc_mean_shift bv bv' epgc parents q c : length epgc = length parents ->
+  (forall i, In i parents -> mget bv' i q == mget bv i q + c) ->
+  uc_mean bv' epgc parents q == uc_mean bv epgc parents q + c * qsum epgc.
+Proof.
+  revert parents. induction epgc as [|e epgc IH]; intros [|i parents] HL H; cbn in HL; try discriminate.
+  - rewrite !uc_mean_nil_l. change (qsum []) with 0. ring.
+  - rewrite !uc_mean_cons, qsum_cons. rewrite (H i) by (now left).
+    rewrite (IH parents) by (try (injection HL as HL; exact HL); intros j Hj; apply H; now right). ring.
+Qed.
+(** ... so for contributions summing to one the progeny mean is a mean: it moves with the breeding values *)
+Lemma uc_mean_is_mean bv bv' epgc parents q c : length epgc = length parents -> qsum epgc == 1 ->
+  (forall i, In i parents -> mget bv' i q == mget bv i q + c) ->
+  uc_mean bv' epgc parents q == uc_mean bv epgc parents q + c.
+Proof. intros HL H1 H. rewrite (uc_mean_shift bv bv' epgc parents q c HL H), H1. ring. Qed.
+(** parents with one common breeding value b: the progeny mean is b *)
+Lemma uc_mean_const bv epgc parents q b : length epgc = length parents -> qsum epgc == 1 ->
+  (forall i, In i parents -> mget bv i q == b) -> uc_mean bv epgc parents q == b.
+Proof.
+  intros HL H1 H. revert parents HL H. 
+  assert (G : forall ep ps, length ep = length ps -> (forall i, In i ps -> mget bv i q == b) -> uc_mean bv ep ps q == b * qsum ep).
+  { induction ep as [|e ep IH]; intros [|i ps] HL H; cbn in HL; try discriminate.
+    - rewrite uc_mean_nil_l. change (qsum []) with 0. ring.
+    - rewrite uc_mean_cons, qsum_cons, (H i) by (now left). rewrite (IH ps) by (try (injection HL as HL; exact HL); intros j Hj; apply H; now right). ring. }
+  intros parents HL H. rewrite (G epgc parents HL H), H1. ring.
+Qed.
+
+(** uniform contributions 1/m: the plain mean *)
+Lemma uc_mean_repeat bv a parents q : uc_mean bv (repeat a (length parents)) parents q == a * qsum (map (fun i => mget bv i q) parents).
+Proof.
+  induction parents as [|i parents IH]; cbn [length repeat map].
+  - rewrite uc_mean_nil_l. change (qsum []) with 0. ring.
+  - rewrite uc_mean_cons, qsum_cons, IH. ring.
+Qed.
+Lemma uc_mean_uniform bv parents q : parents <> [] -> uc_mean bv (uniform (length parents)) parents q == plain_mean bv parents q.
+Proof.
+  intros Hne. unfold uniform, plain_mean. rewrite uc_mean_repeat.
+  assert (Hk : ~ nq (length parents) == 0) by (apply ge1_nonzero, len_pos, Hne). field. exact Hk.
+Qed.
+Lemma uniform_total m : (0 < m)%nat -> qsum (uniform m) == 1.
+Proof.
+  intros Hm. unfold uniform.
+  assert (G : forall a k, qsum (repeat a k) == a * nq k).
+  { intros a k. induction k as [|k IH]; [change (qsum (repeat a 0)) with 0; unfold nq; cbn; ring|].
+    cbn [repeat]. rewrite qsum_cons, IH. unfold nq. rewrite Nat2Z.inj_succ, <- Z.add_1_r, inject_Z_plus. ring. }
+  rewrite G. field. apply ge1_nonzero, nq_pos, Hm.
+Qed.
+(** non-uniform contributions are NOT the plain mean: three-way cross (recurrent, female, male) = (1/2, 1/4, 1/4) *)
+Lemma uc_weighted_is_not_plain : ~ uc_mean [[4]; [0]; [0]] [1#2; 1#4; 1#4] [0; 1; 2]%nat 0 == plain_mean [[4]; [0]; [0]] [0; 1; 2]%nat 0.
+Proof. vm_compute. discriminate. Qed.
+
+(** the table entry and the latent vector of a usefulness-criterion problem *)
+Lemma nth_map2 {A B C} (f : A -> B -> C) (la : list A) (lb : list B) (da : A) (db : B) (dc : C) x :
+  (x < length la)%nat -> (x < length lb)%nat -> nth x (map2 f la lb) dc = f (nth x la da) (nth x lb db).
+Proof. revert lb x. induction la as [|a la IH]; intros [|b lb] [|x] H1 H2; cbn in *; try lia; [reflexivity | apply IH; lia]. Qed.
+Lemma ucmat_entry bv epgc si sigmas t xmap x q : (x < length xmap)%nat -> length sigmas = length xmap -> (q < t)%nat ->
+  mget (ucmat_of bv epgc si sigmas t xmap) x q = uc_mean bv epgc (nth x xmap []) q + si * nth q (nth x sigmas []) 0.
+Proof.
+  intros Hx HL Hq. unfold mget, ucmat_of. rewrite (nth_map2 _ xmap sigmas [] [] []) by lia. unfold uc_row. now rewrite nth_map_seq.
+Qed.
+(** UC latent vector of a selection s of crosses (subset encoding):  -(1/k) sum_{x in s} (weighted mean of cross x + i * sigma_x),
+    for ANY contribution vector *)
+Definition uc_latent_def (bv : list (list Q)) (epgc : list Q) (si : Q) (sigmas : list (list Q)) (t : nat) (xmap : list (list nat)) (s : list nat) : list Q :=
+  map (fun q => - (1 / nq (length s)) * sumf (fun x => uc_mean bv epgc (nth x xmap []) q + si * nth q (nth x sigmas []) 0) s) (seq 0 t).
+Lemma uc_latent_subset bv epgc si sigmas t xmap s : length sigmas = length xmap -> in_range (length xmap) s -> s <> [] ->
+  res_eq (latent (length xmap) (FLin false t (ucmat_of bv epgc si sigmas t xmap)) (DSub s)) (Some (map Ex (uc_latent_def bv epgc si sigmas t xmap s))).
+Proof.
+  intros HL Hr Hne. unfold latent. destruct s as [|a s0]; [congruence|]. cbn [is_nil res_eq]. set (s := a :: s0) in *.
+  apply lveq_Ex. unfold lin_subset, uc_latent_def. apply qleq_map_seq. intros q Hq.
+  apply Qmult_comp; [reflexivity|]. rewrite !sumf_sumg. apply sumg_ext. intros x Hx.
+  rewrite ucmat_entry by (try apply Hr; try exact HL; try exact Hx; lia). reflexivity.
+Qed.
+(** every encoding of the same contributions gives that vector *)
+Lemma uc_latent_encodings bv epgc si sigmas t xmap s : length sigmas = length xmap -> in_range (length xmap) s -> s <> [] ->
+  let fd := FLin false t (ucmat_of bv epgc si sigmas t xmap) in let n := length xmap in let want := Some (map Ex (uc_latent_def bv epgc si sigmas t xmap s)) in
+  res_eq (latent n fd (DSub s)) want /\ res_eq (latent n fd (DVec (counts n s))) want /\ res_eq (latent n fd (DVec (contrib_subset n s))) want /\
+  (NoDup s -> res_eq (latent n fd (DVec (indicator n s))) want).
+Proof.
+  intros HL Hr Hne fd n want. pose proof (uc_latent_subset bv epgc si sigmas t xmap s HL Hr Hne) as S.
+  destruct (latent_encodings_agree n fd s eq_refl Hne Hr I) as (A & B & C).
+  split; [exact S|]. split; [eapply res_eq_trans; [exact A | exact S]|]. split; [eapply res_eq_trans; [exact B | exact S]|].
+  intros Hd. eapply res_eq_trans; [exact (C Hd) | exact S].
+Qed.
+(** corollary: uniform contributions (two-way, dihybrid, four-way) — the plain mean of the parents *)
+Lemma uc_latent_uniform bv m si sigmas t xmap s : length sigmas = length xmap -> in_range (length xmap) s -> s <> [] -> (0 < m)%nat ->
+  (forall x, In x s -> length (nth x xmap []) = m) ->
+  res_eq (latent (length xmap) (FLin false t (ucmat_of bv (uniform m) si sigmas t xmap)) (DSub s))
+         (Some (map Ex (map (fun q => - (1 / nq (length s)) * sumf (fun x => plain_mean bv (nth x xmap []) q + si * nth q (nth x sigmas []) 0) s) (seq 0 t)))).
+Proof.
+  intros HL Hr Hne Hm Hlen. eapply res_eq_trans; [apply uc_latent_subset; assumption|]. cbn [res_eq]. apply lveq_Ex.
+  unfold uc_latent_def. apply qleq_map_seq. intros q Hq. apply Qmult_comp; [reflexivity|]. rewrite !sumf_sumg. apply sumg_ext. intros x Hx.
+  pose proof (Hlen x Hx) as E. rewrite <- E. rewrite uc_mean_uniform; [reflexivity|]. intro Z. rewrite Z in E. cbn in E. lia.
+Qed.
